@@ -33,5 +33,21 @@ for pid in ids or sorted(props):
             "defects that only show for a particular RELATION between two arguments or between two consecutive calls; defects in rarely taken branches of the existing code (read the code closely for branches the tests never enter); "
             "defects introduced by a plausible refactoring that merges two code paths; defects that depend on properties of the caller's memory (aliasing between two arguments, overlapping slices, "
             "a string that shares memory with another argument, zero-length-but-non-nil versus nil slices); defects that need a value class the type allows but nobody thinks of (negative zero-width, empty element in the middle of a batch, duplicate element, maximal value of the type).")
+    variant = os.environ.get("SEED_HINT_VARIANT", "")
+    if variant == "ab":
+        variant = "a" if int(pid[1:]) % 2 else "b"
+    common = ("ADDITIONAL INSTRUCTION FOR THIS ROUND: six earlier rounds already used the following mechanisms for this property (name [files]): "
+              + "; ".join(tried.get(pid, [])) + ". Find defects that are DIFFERENT from all of these (a different function or a genuinely different mechanism). "
+              "The defect must still be a violation of the property AS STATED (its statement and quantifier above), observable through the public API by a legitimate caller; "
+              "do not rely on behaviour the statement does not promise. Prefer realistic maintainer mistakes that a code reviewer could plausibly approve. ")
+    if variant == "a":
+        hint = common + ("THIS ROUND'S RESTRICTION: the defect must manifest in plain single-goroutine use, in a single call or one short call sequence, on SMALL inputs "
+                         "(a handful of elements, a few words, short strings, small heights) - no size thresholds, no concurrency, no environment dependence, no caches or pools, no memory-aliasing tricks. "
+                         "It must hide in a narrow VALUE class or in a narrow RELATION between arguments that the existing tests do not contain: read the code for branches, masks, shifts, rounding and "
+                         "boundary comparisons whose both sides the tests never exercise, and for combinations of two boundary conditions that each are tested alone but never together.")
+    elif variant == "b":
+        hint = common + ("THIS ROUND'S RESTRICTION: the defect must live in the INTERPLAY of two public functions the property names (a builder and its query, an encoder and its decoder, a writer and its reader, "
+                         "a constructor and a method, two calls on the same object): change one side (or both, consistently almost everywhere) so that each function looks right in isolation on the "
+                         "existing tests but the pair violates the property for some inputs or some call order. No size thresholds above a few thousand elements and no dependence on GOMAXPROCS.")
     open(os.path.join(root, pid + ".prompt.txt"), "w").write(tmpl.replace("@DIR@", d).replace("@PROPERTY@", text).replace("@HINT@", hint))
     print(pid, len(tried.get(pid, [])), "earlier mechanisms")
